@@ -9,6 +9,7 @@ of checks/c07.py).  `IsRep M p x a` (Spec/MontgomerySpec.lean): `x ∈ [0,p)` is
 RecInt: for EVERY radix R and every 0 < p < R with p1·p ≡ -1 (mod R) — in particular R = 2^(2^K) for every K and every odd p.
 -/
 import GivaroModel.Lemmas.MontgomeryLemmas
+import GivaroModel.Lemmas.MontgomeryDepth
 namespace Givaro.Props.C07
 open Givaro Givaro.Model.Montgomery Givaro.Spec.Montgomery Givaro.Lemmas.Montgomery
 
@@ -423,5 +424,254 @@ theorem mgR_ring_exact (n : Nat) (p a b c : Int) (hp3 : 3 ≤ p) (hpR : p < radi
     · have := convertR_rep hD (addR_rep hD dC (mulR_rep hD dA dB))
       rw [Int.add_comm] at this; exact this
 example : (3 : Int) ≤ 1009 ∧ (1009 : Int) < radix 1 ∧ (1009 : Int) % 2 = 1 := by decide
+
+/-! ## Depth: histories of operations, `isUnit`, RecInt `inv`/`div` through `inv_mod`, exponentiation, scalar constructors -/
+
+/-- History level, 32-bit ring: ANY sequence of ring / fused / in-place operations (an `RExpr` of any size and shape) on
+    Montgomery-form elements, converted out at the end, equals the same sequence on plain residues (reduction mod `p` after
+    every step), for every admissible modulus.  Second part: the same with the elements produced by `init` from arbitrary integers. -/
+theorem mg32_history_exact (p : Int) (h3 : 3 ≤ p) (hmax : p ≤ maxCard32) (hodd : p % 2 = 1) (e : RExpr) (val : Nat → Int) :
+    (∀ env : Nat → Int, (∀ i, IsRep 65536 p (env i) (val i)) →
+      IsRep 65536 p (e.eval32 (mk32 p) env) (e.evalZ val) ∧ convert32 (mk32 p) (e.eval32 (mk32 p) env) = e.evalPlain p val) ∧
+    convert32 (mk32 p) (e.eval32 (mk32 p) (fun i => initI64 (mk32 p) (val i))) = e.evalPlain p val := by
+  have g : Good32 (mk32 p) := mk32_good h3 hmax hodd
+  have hp : (mk32 p).p = p := rfl
+  have main : ∀ env : Nat → Int, (∀ i, IsRep 65536 p (env i) (val i)) →
+      IsRep 65536 p (e.eval32 (mk32 p) env) (e.evalZ val) ∧ convert32 (mk32 p) (e.eval32 (mk32 p) env) = e.evalPlain p val := by
+    intro env henv
+    have hr : Rep32 (mk32 p) (e.eval32 (mk32 p) env) (e.evalZ val) := eval32_rep g.toAdm32 env val henv e
+    refine ⟨hr, ?_⟩
+    rw [evalPlain_eq]; exact hp ▸ convert32_rep g.toAdm32 hr
+  exact ⟨main, (main _ (fun i => initI64_rep g (val i))).2⟩
+example : convert32 (mk32 101) ((RExpr.tern .axmyin (.var 0) (.bin .mulin (.var 1) (.var 0)) (.neg (.var 2))).eval32 (mk32 101)
+    (fun i => initI64 (mk32 101) (100 - i))) = (100 * (99 * 100) + 98) % 101 := by decide +kernel
+
+/-- History level, RecInt (`Montgomery<ruint<K>>`; the `add/sub/neg/mul` bodies are those of `rmint<K,MGA>`): any sequence of
+    operations on Montgomery-form elements, converted out, equals the same sequence on plain residues — every radix, every modulus. -/
+theorem mgR_history_exact (C : MgCtx) (hp0 : 0 < C.p) (hpR : C.p < C.R) (hp1 : (C.p1 * C.p) % C.R = C.R - 1)
+    (e : RExpr) (env val : Nat → Int) (henv : ∀ i, IsRep C.R C.p (env i) (val i)) :
+    IsRep C.R C.p (e.evalR C env) (e.evalZ val) ∧ convertR C (e.evalR C env) = e.evalPlain C.p val ∧
+    getRuintA C (e.evalR C env) = e.evalPlain C.p val := by
+  have h : AdmR C := ⟨hp0, hpR, hp1⟩
+  have hr := evalR_rep h env val henv e
+  have := convertR_rep h hr
+  rw [← evalPlain_eq] at this
+  exact ⟨hr, this, this⟩
+
+/-- the same with the constants the constructor computes and the elements `init` produces: every level, every odd `3 ≤ p < 2^(2^K)` -/
+theorem mgR_history_ring_exact (n : Nat) (p : Int) (hp3 : 3 ≤ p) (hpR : p < radix n) (hodd : p % 2 = 1)
+    (e : RExpr) (val : Nat → Int) (hval : ∀ i, 0 ≤ val i ∧ val i < p) :
+    convertR (mkR n p) (e.evalR (mkR n p) (fun i => initR (mkR n p) (val i))) = e.evalPlain p val := by
+  obtain ⟨_, _, k1, _⟩ := mgR_p1_exact n p (by omega) hpR hodd
+  obtain ⟨_, _, _, kr2, _, _, _⟩ := mgR_constants_exact n p (by omega) hpR
+  have hp1 : ((mkR n p).p1 * (mkR n p).p) % (mkR n p).R = (mkR n p).R - 1 := k1
+  refine (mgR_history_exact (mkR n p) (by show 0 < p; omega) hpR hp1 e _ val (fun i => ?_)).2.1
+  have := mgR_init_convert_id (mkR n p) (by show 0 < p; omega) hpR hp1 kr2 (val i) (hval i).1 (hval i).2
+  have e2 : initR (mkR n p) (val i) = toMgR (mkR n p) (val i) := by
+    unfold initR
+    simp only [show ¬ val i < 0 by have := (hval i).1; omega, ↓reduceIte]
+    rw [Int.emod_eq_of_lt (hval i).1 (by have := (hval i).2; show val i < radix n; omega),
+      Int.emod_eq_of_lt (hval i).1 (show val i < (mkR n p).p from (hval i).2)]
+  rw [e2]; exact this.2.1
+example : (3 : Int) ≤ 7 ∧ (7 : Int) < radix 0 ∧ (7 : Int) % 2 = 1 := by decide
+
+/-- `isUnit` of the 32-bit ring decides invertibility of the represented residue (both directions; `extended_euclid` returns the gcd) -/
+theorem mg32_isUnit_exact (p x a : Int) (h3 : 3 ≤ p) (hmax : p ≤ maxCard32) (hodd : p % 2 = 1) (hx : IsRep 65536 p x a) :
+    isUnit32 (mk32 p) x = true ↔ IsCoprime a p := by
+  have g : Good32 (mk32 p) := mk32_good h3 hmax hodd
+  exact isUnit32_iff g.toAdm32 (F := mk32 p) hx
+example : IsRep 65536 9 (initU64 (mk32 9) 3) 3 ∧ isUnit32 (mk32 9) (initU64 (mk32 9) 3) = false ∧
+    isUnit32 (mk32 9) (initU64 (mk32 9) 2) = true := by unfold IsRep; decide
+
+/-- `inv_mod(a, b, c)` (ruinvmod.h; the loop with its negation / carry / conditional subtraction): for every `1 < c < R` and every
+    `b ≥ 0` invertible modulo `c` the result is the inverse of `b` in `[0, c)`. -/
+theorem inv_mod_exact (R c b : Int) (hc1 : 1 < c) (hcR : c < R) (hb0 : 0 ≤ b) (hcop : IsCoprime b c) :
+    0 ≤ invMod R b c ∧ invMod R b c < c ∧ (invMod R b c * b) % c = 1 := by
+  obtain ⟨t0, t1, t2⟩ := invMod_spec hc1 hcR hb0 hcop
+  exact ⟨t0, t1, emod_unique (by decide) hc1 t2⟩
+example : invMod 16 3 7 = 5 ∧ IsCoprime (3 : Int) 7 := ⟨by decide, ⟨-2, 1, by decide⟩⟩
+
+/-- `inv`, `div`, `divin` of `Montgomery<ruint<K>>` (`inv_mod` then `mulin` by `r3`): exact for every unit, every radix, every modulus `> 1`. -/
+theorem mgR_inv_div_exact (C : MgCtx) (hp1' : 1 < C.p) (hpR : C.p < C.R) (hp1 : (C.p1 * C.p) % C.R = C.R - 1)
+    (hr3 : C.r3 = (C.R * C.R * C.R) % C.p) {x y a b : Int} (hx : IsRep C.R C.p x a) (hy : IsRep C.R C.p y b)
+    (hu : IsCoprime a C.p) :
+    (convertR C (invR C x) * a) % C.p = 1 ∧ (convertR C (divR C y x) * a) % C.p = b % C.p ∧
+    (convertR C (divinR C y x) * a) % C.p = b % C.p ∧ isUnitR C x = true := by
+  have h : AdmR C := ⟨by omega, hpR, hp1⟩
+  obtain ⟨a', ⟨j, hj⟩, rI⟩ := invR_rep h hp1' hr3 hx hu
+  have e1 := convertR_rep h rI
+  have e2 : convertR C (divR C y x) = (a' * b) % C.p := convertR_rep h (mulR_rep h rI hy)
+  have e3 : convertR C (divinR C y x) = (b * a') % C.p := convertR_rep h (mulR_rep h hy rI)
+  refine ⟨?_, ?_, ?_, ?_⟩
+  · rw [e1, emod_mul_emod']; exact emod_unique (by decide) hp1' ⟨j, hj⟩
+  · rw [e2, emod_mul_emod']
+    exact (Int.modEq_iff_dvd.mpr ⟨-(b * j), by linear_combination (-b) * hj⟩ : a' * b * a ≡ b [ZMOD C.p])
+  · rw [e3, emod_mul_emod']
+    exact (Int.modEq_iff_dvd.mpr ⟨-(b * j), by linear_combination (-b) * hj⟩ : b * a' * a ≡ b [ZMOD C.p])
+  · unfold isUnitR
+    have := (rep_coprime hp1 hx).mpr hu
+    simpa using Int.isCoprime_iff_gcd_eq_one.mp this
+example : (1 : Int) = (16 * 16 * 16) % 7 ∧ IsRep 16 7 6 3 ∧ IsCoprime (3 : Int) 7 :=
+  ⟨by decide, by unfold IsRep; decide, ⟨-2, 1, by decide⟩⟩
+
+/-- `inv` and `div` of `rmint`: the Montgomery variant (`reduction; inv_mod; to_mg`, and `div` with its `ci == 0` test), converted out,
+    returns exactly what the non-Montgomery variant returns on the plain residues, and that value is the inverse / the quotient. -/
+theorem rmint_inv_div_exact (C : MgCtx) (hp1' : 1 < C.p) (hpR : C.p < C.R) (hp1 : (C.p1 * C.p) % C.R = C.R - 1)
+    {x y a b : Int} (hx : IsRep C.R C.p x a) (hy : IsRep C.R C.p y b) (hu : IsCoprime a C.p) :
+    getRuintA C (invA C x) = invMod C.R (a % C.p) C.p ∧ (invMod C.R (a % C.p) C.p * a) % C.p = 1 ∧
+    getRuintA C (divA C y x) = divI C.R C.p (b % C.p) (a % C.p) ∧ (divI C.R C.p (b % C.p) (a % C.p) * a) % C.p = b % C.p := by
+  have h : AdmR C := ⟨by omega, hpR, hp1⟩
+  obtain ⟨⟨j, hj⟩, rI, t0, t1⟩ := invA_rep h hp1' hx hu
+  have e1 : getRuintA C (invA C x) = invMod C.R (a % C.p) C.p := by
+    have := convertR_rep h rI; rwa [Int.emod_eq_of_lt t0 t1] at this
+  have hone : (invMod C.R (a % C.p) C.p * a) % C.p = 1 := emod_unique (by decide) hp1' ⟨j, hj⟩
+  have tne : invMod C.R (a % C.p) C.p ≠ 0 := by
+    intro e; rw [e] at hone; simp at hone
+  have cine : invA C x ≠ 0 := by
+    intro e
+    have := convertR_rep h rI
+    have hz : getRuintA C 0 = 0 := by
+      have h0 : IsRep C.R C.p 0 0 := ⟨le_refl 0, by omega, by simp⟩
+      have : getRuintA C 0 = 0 % C.p := convertR_rep h h0
+      simpa using this
+    rw [e] at this
+    have : invMod C.R (a % C.p) C.p % C.p = 0 := by rw [← this]; exact hz
+    rw [Int.emod_eq_of_lt t0 t1] at this; exact tne this
+  have e3 : getRuintA C (divA C y x) = (b * invMod C.R (a % C.p) C.p) % C.p := by
+    unfold divA; simp only [cine, ↓reduceIte]; exact convertR_rep h (mulR_rep h hy rI)
+  have e4 : divI C.R C.p (b % C.p) (a % C.p) = (b * invMod C.R (a % C.p) C.p) % C.p := by
+    unfold divI mulI; simp only [tne, ↓reduceIte]; exact emod_mul_emod' _ _ _
+  refine ⟨e1, hone, by rw [e3, e4], ?_⟩
+  rw [e4, emod_mul_emod']
+  exact (Int.modEq_iff_dvd.mpr ⟨-(b * j), by linear_combination (-b) * hj⟩ : b * invMod C.R (a % C.p) C.p * a ≡ b [ZMOD C.p])
+example : IsRep 16 7 6 3 ∧ (9 * 7 : Int) % 16 = 16 - 1 := by unfold IsRep; decide
+
+/-- Exponentiation of `rmint<K,MGA>` (rmgexp.h): the windowed loop `exp(a, b, const ruint<K>&)` at every level for EVERY exponent below
+    the radix, and the binary loop `exp(a, b, const UDItype&)` for every 64-bit exponent, converted out, return `a^e mod p`, which is also
+    what the non-Montgomery `exp_mod` returns (both scanned-bit loops proved through their invariants). -/
+theorem rmint_exp_exact (C : MgCtx) (hp1' : 1 < C.p) (hpR : C.p < C.R) (hp1 : (C.p1 * C.p) % C.R = C.R - 1)
+    (hr : C.r = C.R % C.p) (n : Nat) {x a : Int} (hx : IsRep C.R C.p x a) (k : Nat) :
+    (k < 2 ^ bitsOf n → getRuintA C (expWinA n C x (k : Int)) = rPow C.p a k ∧
+      expModI (bitsOf n) C.p (a % C.p) (k : Int) = rPow C.p a k) ∧
+    (k < 2 ^ 64 → getRuintA C (expU64A C x (k : Int)) = rPow C.p a k ∧ expModI 64 C.p (a % C.p) (k : Int) = rPow C.p a k) := by
+  have h : AdmR C := ⟨by omega, hpR, hp1⟩
+  have hplain : ∀ bits : Nat, k < 2 ^ bits → expModI bits C.p (a % C.p) (k : Int) = rPow C.p a k := by
+    intro bits hk
+    unfold expModI rPow
+    rw [expModLoop_eq hp1' bits k 1 _ hk (by decide) hp1', Int.one_mul]
+    exact (Int.mod_modEq a C.p).pow k
+  exact ⟨fun hk => ⟨convertR_rep h (expWinA_rep h hr n hx k hk), hplain _ hk⟩,
+    fun hk => ⟨convertR_rep h (expU64A_rep h hr hx k hk), hplain _ hk⟩⟩
+example : getRuintA ⟨16, 7, 9, 2, 4, 1⟩ (expU64A ⟨16, 7, 9, 2, 4, 1⟩ 6 5) = 3 ^ 5 % 7 := by decide
+
+/-- Constructors and overloads taking built-in scalars (as repaired by fixes C07_1 … C07_3): for every scalar of either sign the
+    Montgomery variant converted out, the non-Montgomery variant and the plain residue coincide. -/
+theorem rmint_scalar_exact (C : MgCtx) (hp1' : 1 < C.p) (hpR : C.p < C.R) (hp1 : (C.p1 * C.p) % C.R = C.R - 1)
+    {x a : Int} (hx : IsRep C.R C.p x a) (v : Int) :
+    IsRep C.R C.p (ctorSignedA C v) v ∧ getRuintA C (ctorSignedA C v) = v % C.p ∧ ctorSignedI C.R C.p v = v % C.p ∧
+    ctorIfromA C x = a % C.p ∧
+    getRuintA C (mulScalarA C x v) = (a * v) % C.p ∧ mulScalarI C.R C.p (a % C.p) v = (a * v) % C.p ∧
+    (IsCoprime v C.p → getRuintA C (invScalarA C v) = invScalarI C.R C.p v ∧ (invScalarI C.R C.p v * v) % C.p = 1) := by
+  have h : AdmR C := ⟨by omega, hpR, hp1⟩
+  have rv := ctorSignedA_rep h v
+  have ei := ctorSignedI_eq (R := C.R) (p := C.p) (by omega) hpR v
+  refine ⟨rv, convertR_rep h rv, ei, ?_, convertR_rep h (mulR_rep h hx rv), ?_, ?_⟩
+  · unfold ctorIfromA; rw [show getRuintA C x = a % C.p from convertR_rep h hx]; exact Int.emod_emod_of_dvd _ (dvd_refl _)
+  · rw [mulScalarI_eq (by omega) hpR]; exact emod_mul_emod' _ _ _
+  · intro hu
+    obtain ⟨e1, e2, _, _⟩ := rmint_inv_div_exact C hp1' hpR hp1 rv rv hu
+    have : invScalarI C.R C.p v = invMod C.R (v % C.p) C.p := by unfold invScalarI; rw [ei]
+    rw [this]; exact ⟨e1, e2⟩
+example : ctorSignedI 16 7 (-7) = 0 ∧ ctorSignedI 16 7 (-3) = 4 ∧ getRuintA ⟨16, 7, 9, 2, 4, 1⟩ (ctorSignedA ⟨16, 7, 9, 2, 4, 1⟩ (-3)) = 4 := by decide
+
+/-- All of the above for the contexts the code builds (`rmint<K,MGA>::init_module(p)`, `Montgomery<ruint<K>>(p)`): every level
+    `K = 6 + n`, every odd `3 ≤ p < 2^(2^K)`, every residue, every unit, every exponent below `2^(2^K)`. -/
+theorem rmint_ring_exact (n : Nat) (p a b : Int) (hp3 : 3 ≤ p) (hpR : p < radix n) (hodd : p % 2 = 1)
+    (ha0 : 0 ≤ a) (ha1 : a < p) (hb0 : 0 ≤ b) (hb1 : b < p) (k : Nat) (hk : k < 2 ^ bitsOf n) :
+    let D := mkA n p
+    let C := mkR n p
+    getRuintA D (expWinA n D (toMgA D a) (k : Int)) = rPow p a k ∧ expModI (bitsOf n) p a (k : Int) = rPow p a k ∧
+    (IsCoprime a p →
+      getRuintA D (invA D (toMgA D a)) = invMod (radix n) a p ∧ (invMod (radix n) a p * a) % p = 1 ∧
+      getRuintA D (divA D (toMgA D b) (toMgA D a)) = divI (radix n) p b a ∧ (divI (radix n) p b a * a) % p = b ∧
+      (convertR C (invR C (initR C a)) * a) % p = 1 ∧ (convertR C (divR C (initR C b) (initR C a)) * a) % p = b) := by
+  intro D C
+  obtain ⟨_, _, k1, k2⟩ := mgR_p1_exact n p (by omega) hpR hodd
+  obtain ⟨_, _, kr, kr2, kr3, krA, _⟩ := mgR_constants_exact n p (by omega) hpR
+  have hD1 : (D.p1 * D.p) % D.R = D.R - 1 := by
+    show ((mkA n p).p1 * p) % radix n = radix n - 1
+    rw [k2]; exact k1
+  have hC1 : (C.p1 * C.p) % C.R = C.R - 1 := k1
+  have hD : AdmR D := ⟨by show 0 < p; omega, hpR, hD1⟩
+  have dA := toMgA_rep hD a
+  have dB := toMgA_rep hD b
+  have eap : a % p = a := Int.emod_eq_of_lt ha0 ha1
+  have ebp : b % p = b := Int.emod_eq_of_lt hb0 hb1
+  obtain ⟨x1, x2⟩ := (rmint_exp_exact D (by show 1 < p; omega) hpR hD1 krA n dA k).1 hk
+  have x2' : expModI (bitsOf n) p a (k : Int) = rPow p a k := by
+    have : expModI (bitsOf n) D.p (a % D.p) (k : Int) = rPow D.p a k := x2
+    rwa [show a % D.p = a from eap] at this
+  refine ⟨x1, x2', fun hu => ?_⟩
+  obtain ⟨i1, i2, i3, i4⟩ := rmint_inv_div_exact D (by show 1 < p; omega) hpR hD1 dA dB hu
+  have iA := mgR_init_convert_id C (by show 0 < p; omega) hpR hC1 kr2 a ha0 ha1
+  have iB := mgR_init_convert_id C (by show 0 < p; omega) hpR hC1 kr2 b hb0 hb1
+  have eA : initR C a = toMgR C a := by
+    unfold initR; simp only [show ¬ a < 0 by omega, ↓reduceIte]
+    rw [Int.emod_eq_of_lt ha0 (show a < C.R by show a < radix n; omega), Int.emod_eq_of_lt ha0 (show a < C.p from ha1)]
+  have eB : initR C b = toMgR C b := by
+    unfold initR; simp only [show ¬ b < 0 by omega, ↓reduceIte]
+    rw [Int.emod_eq_of_lt hb0 (show b < C.R by show b < radix n; omega), Int.emod_eq_of_lt hb0 (show b < C.p from hb1)]
+  obtain ⟨j1, j2, _, _⟩ := mgR_inv_div_exact C (by show 1 < p; omega) hpR hC1 kr3 (eA ▸ iA.2.1) (eB ▸ iB.2.1) hu
+  have i1' : getRuintA D (invA D (toMgA D a)) = invMod (radix n) a p := by
+    have : getRuintA D (invA D (toMgA D a)) = invMod D.R (a % D.p) D.p := i1
+    rwa [show a % D.p = a from eap] at this
+  have i2' : (invMod (radix n) a p * a) % p = 1 := by
+    have : (invMod D.R (a % D.p) D.p * a) % D.p = 1 := i2
+    rwa [show a % D.p = a from eap] at this
+  have i3' : getRuintA D (divA D (toMgA D b) (toMgA D a)) = divI (radix n) p b a := by
+    have : getRuintA D (divA D (toMgA D b) (toMgA D a)) = divI D.R D.p (b % D.p) (a % D.p) := i3
+    rwa [show a % D.p = a from eap, show b % D.p = b from ebp] at this
+  have i4' : (divI (radix n) p b a * a) % p = b := by
+    have : (divI D.R D.p (b % D.p) (a % D.p) * a) % D.p = b % D.p := i4
+    rwa [show a % D.p = a from eap, show b % D.p = b from ebp] at this
+  exact ⟨i1', i2', i3', i4', j1, by have : _ = b % C.p := j2; rwa [show b % C.p = b from ebp] at this⟩
+example : (3 : Int) ≤ 1009 ∧ (1009 : Int) < radix 0 ∧ (1009 : Int) % 2 = 1 ∧ IsCoprime (5 : Int) 1009 :=
+  ⟨by decide, by decide, by decide, ⟨202, -1, by decide⟩⟩
+
+/-- `isUnit` of `Montgomery<ruint<K>>` (`gcd(d, a, p); d == 1`, the `ruint` gcd taken through its contract `Int.gcd`) decides
+    invertibility of the represented residue. -/
+theorem mgR_isUnit_exact (C : MgCtx) (hp1 : (C.p1 * C.p) % C.R = C.R - 1) {x a : Int} (hx : IsRep C.R C.p x a) :
+    isUnitR C x = true ↔ IsCoprime a C.p := by
+  rw [← rep_coprime hp1 hx, Int.isCoprime_iff_gcd_eq_one]
+  unfold isUnitR; simp
+
+/-- `init` of `Montgomery<ruint<K>>` from a signed source (`reduce(|a|); if (a < 0) negin; to_mg`): the canonical map for every
+    `|v| < R` of either sign. -/
+theorem mgR_init_signed_exact (C : MgCtx) (hp0 : 0 < C.p) (hpR : C.p < C.R) (hp1 : (C.p1 * C.p) % C.R = C.R - 1)
+    (hr2 : C.r2 = (C.R * C.R) % C.p) (v : Int) (hv0 : -C.R < v) (hv1 : v < C.R) :
+    IsRep C.R C.p (initR C v) v ∧ convertR C (initR C v) = v % C.p := by
+  have h : AdmR C := ⟨hp0, hpR, hp1⟩
+  have key : ∀ w : Int, 0 ≤ w → w < C.p → IsRep C.R C.p (toMgR C w) w :=
+    fun w w0 w1 => (mgR_init_convert_id C hp0 hpR hp1 hr2 w w0 w1).2.1
+  have hrep : IsRep C.R C.p (initR C v) v := by
+    unfold initR
+    simp only
+    by_cases hv : v < 0
+    · simp only [hv, ↓reduceIte]
+      rw [Int.emod_eq_of_lt (show 0 ≤ -v by omega) (show -v < C.R by omega)]
+      have m0 := Int.emod_nonneg (-v) (show C.p ≠ 0 by omega)
+      have m1 := Int.emod_lt_of_pos (-v) hp0
+      have hd := Int.emod_add_mul_ediv (-v) C.p
+      rw [negR_val hp0 hpR m0 m1]
+      split
+      · rename_i hz
+        exact rep_congr_val (key 0 (le_refl 0) hp0) ⟨(-v) / C.p, by rw [hz] at hd; linear_combination -hd⟩
+      · exact rep_congr_val (key _ (by omega) (by omega)) ⟨1 + (-v) / C.p, by linear_combination -hd⟩
+    · simp only [hv, ↓reduceIte]
+      rw [Int.emod_eq_of_lt (show 0 ≤ v by omega) hv1]
+      have hd := Int.emod_add_mul_ediv v C.p
+      exact rep_congr_val (key _ (Int.emod_nonneg _ (by omega)) (Int.emod_lt_of_pos _ hp0)) ⟨-(v / C.p), by linear_combination hd⟩
+  exact ⟨hrep, convertR_rep h hrep⟩
+example : convertR ⟨16, 7, 9, 2, 4, 1⟩ (initR ⟨16, 7, 9, 2, 4, 1⟩ (-3)) = 4 ∧ (-16 : Int) < -3 := by decide
 
 end Givaro.Props.C07
